@@ -331,7 +331,27 @@ def _run(ctx, a):
     # 3. correspondence + monitors
     res = Result()
     if ok_model:
-        mod.run(ctx, res)
+        try:
+            mod.run(ctx, res)
+        except (Undecided, subprocess.TimeoutExpired):
+            raise
+        except Exception as e:
+            # An exception that passed through afkak's own code is behaviour of the IMPLEMENTATION that
+            # the model does not have (on the unchanged tree the harness runs to the end): the
+            # correspondence no longer checks.  Anything else is a defect of the harness: undecided.
+            tb = traceback.extract_tb(e.__traceback__)
+            pkg = os.path.join(os.path.realpath(REPO), "afkak") + os.sep
+            frames = [f for f in tb if os.path.realpath(f.filename).startswith(pkg) and os.sep + "test" + os.sep not in f.filename]
+            if not frames:
+                raise
+            res.disagreements.append({
+                "component": ",".join(mod.COMPONENTS),
+                "kind": "implementation raised where the model (and the unchanged code) does not",
+                "exception": "%s: %s" % (type(e).__name__, e),
+                "afkak_frames": ["%s:%d %s" % (os.path.relpath(f.filename, REPO), f.lineno, f.name) for f in frames[-6:]],
+                "traceback": traceback.format_exception(type(e), e, e.__traceback__)[-12:],
+            })
+            res.notes.append("correspondence run aborted by an exception raised inside afkak")
     violations = []
     known_hit = []
     for f in res.monitor_failures:
@@ -349,7 +369,14 @@ def _run(ctx, a):
     for d in res.disagreements:
         broken.append({"kind": "correspondence", "what": d})
     if broken and not violations and ok_model and hasattr(mod, "search"):
-        found = mod.search(ctx, res, broken)
+        try:
+            found = mod.search(ctx, res, broken)
+        except (Undecided, subprocess.TimeoutExpired):
+            raise
+        except Exception:
+            # the search is best effort: a crash in it leaves the broken proof/correspondence standing
+            res.notes.append("search aborted: " + traceback.format_exc()[-600:])
+            found = []
         for f in found or []:
             if not match_known(pid, f, known):
                 violations.append(("search", f))
